@@ -6,13 +6,38 @@ def _f(h):
     return float.fromhex(h) if isinstance(h, str) and h not in ("nan",) else float(h)
 
 
+class _FakeNormal:
+    """Stand-in for np.random.normal while the noisy converter runs: the k-th call returns an array filled with
+    loc + scale * zs[k] (the same draw for every pixel), so that the per-bit perturbations are known exactly."""
+
+    def __init__(self, zs):
+        self.zs, self.k = list(zs), 0
+
+    def __call__(self, loc=0.0, scale=1.0, size=None):
+        z = self.zs[self.k]
+        self.k += 1
+        return np.full(size, float(loc) + float(scale) * z)
+
+
 def handle(p):
+    orig = np.random.normal
+    if p["kind"] == "sarp":
+        np.random.normal = _FakeNormal([_f(h) for h in p["zs"]])
+    try:
+        return _handle(p)
+    finally:
+        np.random.normal = orig
+
+
+def _handle(p):
     from pyxel.detectors import CCD, CCDGeometry, Characteristics, Environment
 
     bits = p["bits"]
     vmin, vmax = _f(p["vmin"]), _f(p["vmax"])
     xs = np.array([[_f(h) for h in p["xs"]]], dtype=float).astype(p.get("frame", "float64"))
     kind, path = p["kind"], p.get("path", "model")
+    dt = p.get("data_type")            # simple only: width of an explicit output type, or None
+    n_str, n_noi = p.get("n_strengths", bits), p.get("n_noises", bits)
     try:
         with np.errstate(all="ignore"):
             if path == "model":
@@ -25,24 +50,38 @@ def handle(p):
                 det.signal.array = xs.copy()
                 if kind == "simple":
                     from pyxel.models.readout_electronics import simple_adc
-                    simple_adc(det)
+                    if dt is None:
+                        simple_adc(det)
+                    else:
+                        simple_adc(det, data_type=f"uint{dt}")
                 elif kind == "sar":
                     from pyxel.models.readout_electronics import sar_adc
                     sar_adc(det)
+                elif kind == "sarp":
+                    from pyxel.models.readout_electronics import sar_adc_with_noise
+                    sar_adc_with_noise(det, strengths=tuple(_f(h) for h in p["strengths"]),
+                                       noises=tuple(_f(h) for h in p["noises"]))
                 else:
                     from pyxel.models.readout_electronics import sar_adc_with_noise
-                    sar_adc_with_noise(det, strengths=tuple([0.0] * bits), noises=tuple([0.0] * bits))
+                    sar_adc_with_noise(det, strengths=tuple([0.0] * n_str), noises=tuple([0.0] * n_noi))
                 out = det.image.array
             else:
                 from pyxel.util import get_dtype
                 if kind == "simple":
                     from pyxel.models.readout_electronics.simple_adc import apply_simple_adc
                     out = apply_simple_adc(signal=xs.copy(), bit_resolution=bits, voltage_min=vmin,
-                                           voltage_max=vmax, dtype=get_dtype(bits))
+                                           voltage_max=vmax,
+                                           dtype=get_dtype(bits) if dt is None else np.dtype(f"uint{dt}"))
                 elif kind == "sar":
                     from pyxel.models.readout_electronics.sar_adc import apply_sar_adc
                     out = apply_sar_adc(signal_2d=xs.copy(), num_rows=1, num_cols=xs.shape[1],
                                         min_volt=vmin, max_volt=vmax, adc_bits=bits)
+                elif kind == "sarp":
+                    from pyxel.models.readout_electronics.sar_adc_with_noise import apply_sar_adc_with_noise
+                    out = apply_sar_adc_with_noise(signal_2d=xs.copy(), num_rows=1, num_cols=xs.shape[1],
+                                                   strengths=np.array([_f(h) for h in p["strengths"]], dtype=float),
+                                                   noises=np.array([_f(h) for h in p["noises"]], dtype=float),
+                                                   max_volt=vmax, adc_bits=bits)
                 else:
                     from pyxel.models.readout_electronics.sar_adc_with_noise import apply_sar_adc_with_noise
                     out = apply_sar_adc_with_noise(signal_2d=xs.copy(), num_rows=1, num_cols=xs.shape[1],
